@@ -40,7 +40,7 @@ def make_body(where):
     return Element.from_tag(text)
 
 
-def _fill(levels, titles, outline, toc_pos, twice):
+def _fill(levels, titles, outline, toc_pos, twice, relevel=None):
     tbody = make_body(0)
     toc = TOC(title="Contents", outline_level=outline)
     items = [Header(lv, ti) for lv, ti in zip(levels, titles)]
@@ -56,6 +56,11 @@ def _fill(levels, titles, outline, toc_pos, twice):
         toc.fill(use_default_styles=False)
         if S.canon(toc._Element__element) != first:
             return False
+    if relevel is not None:
+        # the requested outline level is changed through the property, then the TOC is filled again
+        toc.outline_level = relevel
+        toc.fill(use_default_styles=False)
+        outline = relevel
     limit = outline if outline else 10
     kept = [(lv, ti) for lv, ti in zip(levels, titles) if lv <= limit]
     nums = ref_numbers([lv for lv, _ in kept])
@@ -102,3 +107,67 @@ def toc_text(l1: int, title: str, outline: int) -> bool:
     """
     # heading text with white space (leading/trailing/double spaces become text:s inside the heading)
     return done(_fill([1, l1], ["A", title], outline, 0, False))
+
+
+def toc_relevel(l1: int, l2: int, o2: int) -> bool:
+    """
+    pre: 1 <= l1 <= 2 and 1 <= l2 <= 3 and 0 <= o2 <= 2
+    post: _
+    """
+    o1 = OUTLINE
+    # fill at outline level o1, set toc.outline_level = o2 (0 = not limited), fill again: exactly the
+    # headings of level <= o2
+    return done(_fill([1, l1, l2], ["A", "B", "C"], o1, 1, False, relevel=o2))
+
+
+# ---- the heading-listing tool (odfdo-headers) against the same outline model ----------------------
+class _Out:
+    def __init__(self):
+        self.parts = []
+
+    def write(self, s):
+        self.parts.append(s)
+
+    def flush(self):
+        pass
+
+
+IN_SPAN = os.environ.get("VERIF_SPAN", "0") == "1"
+
+
+def tool_outline(l1: int, l2: int, title: str) -> bool:
+    """
+    pre: 1 <= l1 <= 2 and 1 <= l2 <= 3 and len(title) <= 2 and all(c in "a " for c in title)
+    post: _
+    """
+    in_span = IN_SPAN
+    # scripts/headers.py headers_document(document, depth) on a real Document (in-memory container):
+    # one line per heading of level <= DEPTH, "<number> <heading text>", numbers from the same outline
+    # model as the table of contents; the heading text complete, also when it sits in a span
+    import sys
+    from odfdo.paragraph import Span
+    from odfdo.scripts.headers import headers_document
+    from memdoc import memdoc
+    depth = OUTLINE if OUTLINE else 999
+    doc = memdoc()
+    levels = [1, l1, l2]
+    titles = ["A", title, "C"]
+    for lv, ti in zip(levels, titles):
+        if in_span and ti is title:
+            h = Header(lv, "")
+            h.append(Span(ti))
+        else:
+            h = Header(lv, ti)
+        doc.body.append(h)
+    out = _Out()
+    saved = sys.stdout
+    sys.stdout = out
+    try:
+        headers_document(doc, depth)
+    finally:
+        sys.stdout = saved
+    text = "".join(out.parts)
+    kept = [(lv, ti) for lv, ti in zip(levels, titles) if lv <= depth]
+    nums = ref_numbers([lv for lv, _ in kept])
+    exp = "".join(n + " " + ti + "\n" for n, (_, ti) in zip(nums, kept))
+    return done(text == exp)
